@@ -707,3 +707,230 @@ Proof.
   - unfold mrun. cbn [fold_left last_cmd]. fold (mrun ops (mstate (mstep m op))).
     rewrite IH. rewrite ghost_meaning. reflexivity.
 Qed.
+
+(* ---- the ramp is linear ---- *)
+
+Lemma convex_bounds s g t : -(1) <= s -> s <= 1 -> -(1) <= g -> g <= 1 -> 0 <= t -> t <= 1 ->
+  -(1) <= s + (g - s) * t /\ s + (g - s) * t <= 1.
+Proof. intros. split; nra. Qed.
+
+Lemma in_zsteps n x : In x (zsteps n) -> (1 <= x <= Z.max n 0)%Z.
+Proof.
+  unfold zsteps. intro H. apply in_map_iff in H as (k & <- & Hk). apply in_seq in Hk. lia.
+Qed.
+
+Lemma ramp_point_linear start target k :
+  -(1) <= start -> start <= 1 -> -(1) <= target -> target <= 1 -> (0 <= k <= 20)%Z ->
+  ramp_point start ((target - start) / inject_Z 20) k == start + (target - start) * inject_Z k / 20.
+Proof.
+  intros H1 H2 H3 H4 Hk. unfold ramp_point. rewrite Qred_correct.
+  assert (Ht0 : 0 <= inject_Z k / 20).
+  { apply Qle_shift_div_l; [reflexivity|]. rewrite Qmult_0_l. change 0 with (inject_Z 0). rewrite <- Zle_Qle. lia. }
+  assert (Ht1 : inject_Z k / 20 <= 1).
+  { apply Qle_shift_div_r; [reflexivity|]. rewrite Qmult_1_l. change 20 with (inject_Z 20). rewrite <- Zle_Qle. lia. }
+  assert (E : start + (target - start) / inject_Z 20 * inject_Z k == start + (target - start) * (inject_Z k / 20)).
+  { change (inject_Z 20) with 20. field. }
+  destruct (convex_bounds start target (inject_Z k / 20) H1 H2 H3 H4 Ht0 Ht1) as [B1 B2].
+  rewrite (clampq_compat _ _ E). rewrite clampq_id by assumption. field.
+Qed.
+
+Lemma Forall2_map_same {A B} (R : B -> B -> Prop) (f g : A -> B) l :
+  (forall x, In x l -> R (f x) (g x)) -> Forall2 R (map f l) (map g l).
+Proof.
+  induction l as [|x l IH]; intro H; cbn [map]; constructor.
+  - apply H. left. reflexivity.
+  - apply IH. intros y Hy. apply H. right. exact Hy.
+Qed.
+
+(* "Linearly ramp": step k of a ramp is start + (target - start) * k / 20, exactly *)
+Lemma ramp_linear m t d qt qd :
+  motor_inv m -> qof t = Some qt -> qof d = Some qd -> 0 <= qd ->
+  Forall2 Qeq (lvl_speeds (mevents (mstep m (MRamp t d))))
+              (map (fun k => speed m + (clampq qt - speed m) * inject_Z k / 20) (zsteps 20)).
+Proof.
+  intros Hinv Ht Hd Hd0. rewrite (mstep_ramp_ok m t d qt qd Ht Hd Hd0). rewrite ok_with_events.
+  rewrite ramp_loop_speeds. apply Forall2_map_same. intros k Hk. apply in_zsteps in Hk.
+  destruct Hinv as ((S1 & S2) & _). destruct (clampq_bounds qt) as [T1 T2].
+  apply ramp_point_linear; try assumption. lia.
+Qed.
+
+(* ---- sleeping time of whole histories ---- *)
+
+(* the time a call is asked to take: its duration_ms when it does not raise *)
+Definition op_duration (op : mop) : Q :=
+  match raises op with
+  | Some _ => 0
+  | None => match op with MRamp _ d => qval d | MRunFor d _ => qval d | _ => 0 end
+  end.
+
+Lemma set_speed_q_sleeps m q : sleeps (snd (set_speed_q m q)) = [].
+Proof. reflexivity. Qed.
+
+Lemma step_sleep m op : qsum (sleeps (mevents (mstep m op))) == op_duration op.
+Proof.
+  unfold op_duration, raises. destruct op as [v|ov| | | |t d|d v| | | |]; try reflexivity.
+  - cbn [mstep]. unfold clamp_speed. destruct (qof v) as [q|]; reflexivity.
+  - cbn [mstep]. unfold clamp_speed. destruct (qof (dflt_back ov)) as [q|]; reflexivity.
+  - (* ramp *)
+    destruct (qof d) as [qd|] eqn:Hd.
+    + destruct (Qltb qd 0) eqn:E.
+      * cbn [mstep]. unfold py_lt. rewrite Hd. cbn [qof]. change (inject_Z 0) with 0. rewrite E. reflexivity.
+      * destruct (qof t) as [qt|] eqn:Ht.
+        -- apply Qltb_false in E.
+           rewrite (mstep_ramp_ok m t d qt qd Ht Hd E). rewrite ok_with_events, ramp_loop_sleeps.
+           unfold qval. rewrite Hd.
+           change (inject_Z 20) with 20. rewrite Qltb_0_div20. rewrite steps20. cbn [length].
+           destruct (Qltb 0 qd) eqn:G.
+           ++ rewrite qsum_repeat. change (inject_Z (Z.of_nat 20)) with 20. field.
+           ++ apply Qltb_false in G. cbn [qsum]. lra.
+        -- cbn [mstep]. unfold py_lt, clamp_speed. rewrite Hd, Ht. cbn [qof]. change (inject_Z 0) with 0. rewrite E. reflexivity.
+    + cbn [mstep]. unfold py_lt. rewrite Hd. reflexivity.
+  - (* run_for *)
+    destruct (qof d) as [qd|] eqn:Hd.
+    + destruct (Qltb qd 0) eqn:E.
+      * cbn [mstep]. unfold py_lt. rewrite Hd. cbn [qof]. change (inject_Z 0) with 0. rewrite E. reflexivity.
+      * destruct (qof v) as [qv|] eqn:Hv.
+        -- apply Qltb_false in E.
+           destruct (run_for_exact m d v qd qv Hd Hv E) as (_ & Hs & _).
+           rewrite Hs. unfold qval. rewrite Hd. cbn [qsum]. lra.
+        -- cbn [mstep]. unfold py_lt, clamp_speed. rewrite Hd, Hv. cbn [qof]. change (inject_Z 0) with 0. rewrite E. reflexivity.
+    + cbn [mstep]. unfold py_lt. rewrite Hd. reflexivity.
+Qed.
+
+(* every history sleeps exactly the sum of the durations of its ramp()/run_for() calls that do
+   not raise - and whether a call raises depends on its arguments only *)
+Lemma trace_sleep ops : forall m, qsum (sleeps (mtrace ops m)) == qsum (map op_duration ops).
+Proof.
+  induction ops as [|op ops IH]; intro m.
+  - reflexivity.
+  - cbn [mtrace map qsum]. rewrite sleeps_app, qsum_app, step_sleep, IH. reflexivity.
+Qed.
+
+
+(* ---- every level the motor is ever driven at ---- *)
+
+(* what the property says about the object, said about one level event; a sleep event is fine
+   when its duration is not negative *)
+Definition ev_ok (inv : bool) (e : mev) : Prop :=
+  match e with
+  | MLvl sp ap md =>
+      (-(1) <= sp /\ sp <= 1) /\ ap == (if inv then - sp else sp) /\
+      (md = Drive <-> ~ ap == 0)
+  | MSleep q => 0 <= q
+  end.
+
+Lemma apply_speed_ev m x :
+  -(1) <= speed m -> speed m <= 1 -> x == speed m ->
+  Forall (ev_ok (inverted m)) (snd (apply_speed m x)).
+Proof.
+  intros H1 H2 E. cbn. constructor; [|constructor]. cbn.
+  split; [split; assumption|]. split; [destruct (inverted m); rewrite E; reflexivity|].
+  destruct (Qeqb (if inverted m then - x else x) 0) eqn:Q.
+  - apply Qeqb_true in Q. split; [discriminate | intro N; contradiction].
+  - apply Qeqb_false in Q. split; [intros _; exact Q | reflexivity].
+Qed.
+
+Lemma set_speed_q_ev m q : Forall (ev_ok (inverted m)) (snd (set_speed_q m q)).
+Proof.
+  unfold set_speed_q. destruct (clampq_bounds q) as [B1 B2].
+  apply (apply_speed_ev (mkMotor (pins m) (Qred (clampq q)) (inverted m) (mmode m) (applied m) (ghost m))); cbn [speed].
+  - rewrite Qred_correct. exact B1.
+  - rewrite Qred_correct. exact B2.
+  - reflexivity.
+Qed.
+
+Lemma set_speed_q_inverted m q : inverted (fst (set_speed_q m q)) = inverted m.
+Proof. reflexivity. Qed.
+
+Lemma set_speed_q_inverted_g m q g : inverted (with_ghost (fst (set_speed_q m q)) g) = inverted m.
+Proof. reflexivity. Qed.
+
+Lemma halt_inverted_g m md g : inverted (with_ghost (fst (halt m md)) g) = inverted m.
+Proof. reflexivity. Qed.
+
+Lemma ramp_loop_ev ks : forall m start sv delay,
+  0 <= delay -> Forall (ev_ok (inverted m)) (snd (ramp_loop ks m start sv delay)).
+Proof.
+  induction ks as [|k ks IH]; intros m start sv delay Hd.
+  - constructor.
+  - rewrite ramp_loop_unfold. cbn [snd]. apply Forall_app. split; [apply set_speed_q_ev|].
+    apply Forall_app. split.
+    + destruct (Qltb 0 delay); constructor; [exact Hd | constructor].
+    + rewrite <- (set_speed_q_inverted m (start + sv * inject_Z k)). apply IH. exact Hd.
+Qed.
+
+Lemma halt_ev m md b : md <> Drive -> Forall (ev_ok b) (snd (halt m md)).
+Proof.
+  intro H. cbn. constructor; [|constructor]. cbn. split; [split; lra|].
+  split; [destruct b; reflexivity|]. split; [intro E; contradiction | intro N; exfalso; apply N; reflexivity].
+Qed.
+
+(* the direction flag the events of a call are to be read with: the one after the call for
+   invert(), the unchanged one for every other call *)
+Lemma step_ev m op :
+  motor_inv m -> Forall (ev_ok (inverted (mstate (mstep m op)))) (mevents (mstep m op)).
+Proof.
+  intros ((S1 & S2) & _ & _). destruct op as [v|ov| | | |t d|d v| | | |]; cbn [mstep]; try (apply Forall_nil).
+  - destruct (clamp_speed v) as [q|]; [|constructor].
+    rewrite ok_with_state, ok_with_events, set_speed_q_inverted_g. apply set_speed_q_ev.
+  - destruct (clamp_speed (dflt_back ov)) as [q|]; [|constructor].
+    rewrite ok_with_state, ok_with_events, set_speed_q_inverted_g. apply set_speed_q_ev.
+  - rewrite ok_with_state, ok_with_events. apply (halt_ev m Brake). discriminate.
+  - rewrite ok_with_state, ok_with_events. apply (halt_ev m Coast). discriminate.
+  - rewrite ok_with_state, ok_with_events.
+    apply (apply_speed_ev (mkMotor (pins m) (speed m) (negb (inverted m)) (mmode m) (applied m) (ghost m)));
+      cbn [speed]; [exact S1 | exact S2 | reflexivity].
+  - destruct (py_lt d (PI 0)) as [[|]|] eqn:E; try (apply Forall_nil).
+    destruct (clamp_speed t) as [target|]; [|constructor].
+    apply py_lt0_false in E as (qd & Hd & Hd0).
+    rewrite ok_with_state, ok_with_events. rewrite ramp_run_eq.
+    destruct (with_ghost_fields (fst (ramp_loop (zsteps 20) m (speed m) ((target - speed m) / inject_Z 20) (qval d / inject_Z 20))) LastOther)
+      as (_ & _ & G3 & _).
+    rewrite G3. destruct (ramp_loop_frame (zsteps 20) m (speed m) ((target - speed m) / inject_Z 20) (qval d / inject_Z 20)) as (_ & F2 & _).
+    rewrite F2. apply ramp_loop_ev. unfold qval. rewrite Hd. change (inject_Z 20) with 20.
+    apply Qle_shift_div_l; [reflexivity | lra].
+  - destruct (py_lt d (PI 0)) as [[|]|] eqn:E; try (apply Forall_nil).
+    destruct (clamp_speed v) as [q|]; [|constructor].
+    apply py_lt0_false in E as (qd & Hd & Hd0).
+    pose proof (set_speed_q_ev m q) as H1.
+    destruct (set_speed_q m q) as [m1 e1] eqn:E1.
+    assert (I1 : inverted m1 = inverted m) by (change m1 with (fst (m1, e1)); rewrite <- E1; reflexivity).
+    pose proof (halt_ev m1 Brake (inverted m)) as H2.
+    destruct (halt m1 Brake) as [m2 e2] eqn:E2.
+    assert (I2 : inverted m2 = inverted m1) by (change m2 with (fst (m2, e2)); rewrite <- E2; reflexivity).
+    rewrite ok_with_state, ok_with_events. cbn [fst snd] in *.
+    destruct (with_ghost_fields m2 LastStop) as (_ & _ & G3 & _). rewrite G3, I2, I1.
+    apply Forall_app. split; [exact H1|]. apply Forall_app. split.
+    + constructor; [|constructor]. cbn. unfold qval. rewrite Hd. exact Hd0.
+    + apply H2. discriminate.
+Qed.
+
+(* the same without reference to the direction flag *)
+Definition ev_sound (e : mev) : Prop :=
+  match e with
+  | MLvl sp ap md =>
+      (-(1) <= sp /\ sp <= 1) /\ (ap == sp \/ ap == - sp) /\ (md = Drive <-> ~ ap == 0)
+  | MSleep q => 0 <= q
+  end.
+
+Lemma ev_ok_sound b e : ev_ok b e -> ev_sound e.
+Proof.
+  destruct e as [sp ap md|q]; cbn; [|trivial].
+  intros (H1 & H2 & H3). split; [exact H1|]. split; [destruct b; [right | left]; exact H2 | exact H3].
+Qed.
+
+(* every level any history ever drives the motor at is sound, and no sleep is negative *)
+Lemma trace_ev ops : forall m, motor_inv m -> Forall ev_sound (mtrace ops m).
+Proof.
+  induction ops as [|op ops IH]; intros m Hinv.
+  - constructor.
+  - cbn [mtrace]. apply Forall_app. split.
+    + eapply Forall_impl; [|exact (step_ev m op Hinv)]. intros e He. exact (ev_ok_sound _ e He).
+    + apply IH. apply step_inv. exact Hinv.
+Qed.
+
+Lemma trace_ev_reachable i1 i2 en m0 pre ops :
+  motor_ctor i1 i2 en = inl m0 -> Forall ev_sound (mtrace ops (mrun pre m0)).
+Proof.
+  intro H. apply trace_ev. exact (proj1 (motor_reachable_inv i1 i2 en m0 pre H)).
+Qed.
